@@ -340,6 +340,18 @@ def _oracle(tn, i, q):
                 if got != exp_:
                     return dict(what=f'ind_tt_to_qtt on a {np.dtype(dt).name} array ({form}) is not the little-endian bit string',
                                 input=[i, q], got=got, expected=exp_)
+    # forms of the mode size / digit count themselves: NumPy integer scalars (teneva.shape(Y)[k], np.array(N)[k], 2**np.int64(q))
+    for dt in (np.int16, np.int32, np.int64, np.uint32):
+        if n > np.iinfo(dt).max:
+            continue
+        got = np.asarray(tn.ind_tt_to_qtt(i, dt(n))).tolist()
+        if got != exp:
+            return dict(what=f'ind_tt_to_qtt with the mode size given as {np.dtype(dt).name} is not the little-endian bit string',
+                        input=[i, q], got=got, expected=exp)
+        got = np.asarray(tn.ind_qtt_to_tt(b, dt(q))).tolist()
+        if got != list(i):
+            return dict(what=f'ind_qtt_to_tt with the digit count given as {np.dtype(dt).name} does not invert ind_tt_to_qtt',
+                        input=[i, q], got=got, expected=list(i))
     return None
 
 
@@ -405,6 +417,15 @@ def search(R, ctx, deep, hints):
             pass
         except Exception as e:
             fails.append(dict(what='non-power-of-two mode size: wrong exception ' + repr(e)[:100], input=[[1], n]))
+        for dt in (np.int32, np.int64):
+            if n <= np.iinfo(dt).max:
+                try:
+                    tn.ind_tt_to_qtt([1], dt(n))
+                    fails.append(dict(what=f'non-power-of-two mode size ({np.dtype(dt).name}) accepted', input=[[1], n]))
+                except ValueError:
+                    pass
+                except Exception as e:
+                    fails.append(dict(what=f'non-power-of-two mode size ({np.dtype(dt).name}): wrong exception ' + repr(e)[:100], input=[[1], n]))
     # conversions against a dense reference (degenerate families first: q = 1, d = 1, rank 1, rank-deficient, zero)
     conv = []
     for h in hints:
